@@ -26,7 +26,7 @@ LEVEL_TEXT = ("Bounded relational contract on the real Pipeline.map / map_async:
               "bounded relational checking; it is not a proof of C03.")
 LEVEL_TEXT += (" Also proved: RunInfo.storage_class (which backend an output is stored in: one for all outputs, else the output's own entry, else the default entry ''; ValueError exactly when neither exists).")
 LEVEL_TEXT += (" Also bounded: a run in two steps (one fixed_indices piece, then the completing full run on the same folder) "
-               "returns, stores and invokes the same under 7 configurations incl. map_async.")
+               "returns, stores and invokes the same under 8 configurations incl. map_async and worker processes; a run into a folder that this process already used for a run on other values.")
 LEVEL_TEXT += (" Also proved: _cannot_be_parallelized (prepare_run switches parallel off exactly when no function has a MapSpec and every generation holds one function).")
 LEVEL_NOTE = ("Schedules are sampled (reverse/random completion per generation through rtc/executors.ShuffleExecutor, "
               "real pools), not enumerated. Trusted: concurrent.futures / asyncio, the reference denotation.")
@@ -38,7 +38,7 @@ EXPLANATION = LEVEL_TEXT
 RULE = ("programs of rtc.progs.gen_map_program with >=2 mapped elements x configurations listed in the level text; "
         "distinct = distinct (program, configuration); non-trivial = a generation with >=2 tasks")
 RULE_PIECES = ("programs of rtc.progs.gen_map_program x one piece (fixed_indices on an input-driven, unreduced axis) then the "
-               "completing full run on the same run folder, under 7 configurations (sequential / threads / shuffled "
+               "completing full run on the same run folder, under 8 configurations (sequential / threads / worker processes / shuffled "
                "completion / async x dict / file_array / shared_memory_dict); distinct = distinct (program, axis, piece)")
 TRUSTED_BASE = ["reference denotation rtc/progs.py", "concurrent.futures, asyncio"]
 ASSUMPTIONS = ["user functions deterministic", "completion orders are sampled, not enumerated"]
@@ -89,6 +89,9 @@ def _cases(tier, rng):
             cfgs += CONFIGS_EXTRA
         for cfg in cfgs:
             yield {"prog": prog, "cfg": cfg, "seed": rng.randrange(10**6)}
+        if q % 3 == 0:
+            for cfg in ("thread/file_array", "shuffle-reverse/dict", "async-thread/dict", "process/file_array"):
+                yield {"prog": prog, "cfg": cfg, "seed": rng.randrange(10**6), "after_other_values": True}
         q += 1
     # a storage assignment that mixes an in-memory backend with file_array and no run folder given (a temporary one is
     # needed as soon as one backend needs files)
@@ -139,6 +142,18 @@ def _cases(tier, rng):
         for prog in progs.all_internal_consumer_programs(rng):  # every internal-axis position x key pattern
             for cfg in CONFIGS_QUICK:
                 yield {"prog": prog, "cfg": cfg, "seed": rng.randrange(10**6)}
+
+
+def _primed(v):
+    import numpy as np
+    if isinstance(v, np.ndarray):
+        w = np.empty(v.shape, dtype=object)
+        for idx in np.ndindex(v.shape):
+            w[idx] = f"{v[idx]}'"
+        return w
+    if isinstance(v, list):
+        return [_primed(y) for y in v]
+    return f"{v}'"
 
 
 def _has_none(v):
@@ -192,6 +207,15 @@ def _check(case):
                 run_folder = None
         p = progs.build_pipeline(prog)
         inputs = progs.real_inputs(prog)
+        if case.get("after_other_values") and run_folder is not None:
+            # history: this process already ran the pipeline into the same folder, on other values of the same shapes
+            try:
+                p.map({k: _primed(v) for k, v in inputs.items()}, run_folder=run_folder, parallel=not is_async,
+                      executor=executor, storage=storage, **progs.map_kwargs(prog))
+            except Exception:  # noqa: BLE001
+                pass
+            if os.path.exists(logfile):
+                os.remove(logfile)
         try:
             if is_async:
                 async def go():
@@ -235,7 +259,7 @@ def _check(case):
 
 
 PIECE_CONFIGS = ["seq/file_array", "seq/dict", "thread/dict", "shuffle-random/shared_memory_dict", "async-thread/dict",
-                 "async-shuffle-reverse/file_array", "async-seq/dict"]
+                 "async-shuffle-reverse/file_array", "async-seq/dict", "process/shared_memory_dict"]
 
 
 def _pieces_cases(tier, rng):
@@ -339,7 +363,8 @@ def _pieces_describe(case):
 
 
 def _describe(case):
-    return {"program": progs.describe(case["prog"]), "cfg": case["cfg"], "seed": case["seed"]}
+    return {"program": progs.describe(case["prog"]), "cfg": case["cfg"], "seed": case["seed"],
+            "after_other_values": bool(case.get("after_other_values"))}
 
 
 def bounded_checks():
